@@ -21,6 +21,9 @@ RULE = (
     "range: start/stop/step incl. negative steps, empty and wrong-direction ranges, magnitudes up to 2**63, 1-/2-/3-"
     "argument forms -> list(range(...)); of/from_iterable over lists, tuples, deques, one-shot iterators, generators, "
     "strings, dict views of values from the shared value domain (None/0/False/''/()... included) -> list(iterable); "
+    "iterables that fail (generator, hand-written iterator, re-iterable object raising from __next__ after k>=0 "
+    "items; also through the from_/from_list aliases) -> those k items, then that exception as on_error, nothing "
+    "escaping into the scheduler; "
     "return_value/empty/never/throw (exception object or message string); repeat_value(v, n>=0) -> [v]*n; "
     "generate(initial, condition, iterate) over a family of integer loop functions, optionally raising at the k-th "
     "call -> the equivalent while-loop (prefix then that exception); generate_with_relative_time with delay "
@@ -48,6 +51,8 @@ ASSUMPTIONS = [
     "the time of the completion/error of generate_with_relative_time is not part of the oracle (only that it follows the last element)",
     "negative delays/due times and timer(d, period) are outside the statement and not generated",
     "user functions raising: the equivalent while-loop raises at the same point, so the expected trace is the prefix followed by that exception",
+    "a failing iterable: the statement fixes the items before the failure; that the failure itself arrives as on_error (and does not escape into "
+    "the scheduler or leave the sequence unterminated) rests on the observable contract and from_iterable's own handling, as for generate",
 ]
 
 LONGEST = 60
@@ -140,7 +145,47 @@ def _ref_loop(case, with_delays=False):
 # iterables
 
 
-def _mk_iterable(kind, names):
+class _FailingIterator:
+    """Hand-written iterator: yields items[:k], then its __next__ raises (not StopIteration)."""
+
+    def __init__(self, items, k):
+        self.items, self.k, self.i = items, k, 0
+
+    def __iter__(self):
+        return self
+
+    def __next__(self):
+        if self.i >= self.k:
+            raise Tagged("iterfail")
+        self.i += 1
+        return self.items[self.i - 1]
+
+
+class _FailingIterable:
+    """Re-iterable: every iter() starts a fresh failing iterator (so a second subscription fails the same way)."""
+
+    def __init__(self, items, k):
+        self.items, self.k = items, k
+
+    def __iter__(self):
+        return _FailingIterator(self.items, self.k)
+
+
+def _failing_gen(items, k):
+    for x in items[:k]:
+        yield x
+    raise Tagged("iterfail")
+
+
+FAILING = ("gen-raises", "iter-raises", "iterable-raises")
+
+
+def _mk_iterable(kind, names, fail_at=None):
+    if kind in FAILING:
+        items = [val(n) for n in names]
+        if kind == "gen-raises":
+            return _failing_gen(items, fail_at)
+        return (_FailingIterator if kind == "iter-raises" else _FailingIterable)(items, fail_at)
     if kind == "str":
         return "".join(names)
     items = [val(n) for n in names]
@@ -165,7 +210,7 @@ def _expected_items(kind, names):
     return [canon(val(n)) for n in names]
 
 
-ONE_SHOT = ("iter", "gen")
+ONE_SHOT = ("iter", "gen", "gen-raises", "iter-raises")
 
 # factories that accept scheduler=...; factories whose default scheduler is synchronous (usable with no scheduler)
 HAS_SCHED_ARG = {"range", "from_iterable", "return_value", "empty", "throw", "timer"}
@@ -195,7 +240,13 @@ def _build(case, lab):
             o = reactivex.of(*[val(n) for n in names])
             exp = [canon(val(n)) for n in names]
         else:
-            o = reactivex.from_iterable(_mk_iterable(kind, names), **kw)
+            fac = getattr(reactivex, case.get("alias") or "from_iterable")  # from_ / from_list are documented aliases
+            if kind in FAILING:
+                # consuming the iterable fails after fail_at items: those items, then the failure as the terminal
+                o = fac(_mk_iterable(kind, names, case["fail_at"]), **kw)
+                exp = [canon(val(n)) for n in names[: case["fail_at"]]]
+                return o, [[0, "N", x] for x in exp] + [[0, "E", ["exc", "iterfail"]]]
+            o = fac(_mk_iterable(kind, names), **kw)
             exp = _expected_items(kind, names)
         return o, [[0, "N", x] for x in exp] + [[0, "C", None]]
     if f == "return_value":
@@ -300,6 +351,11 @@ def _run(case):
             boundary.append("negative-step")
         if abs(case["start"]) > 2**31:
             boundary.append("huge-start")
+    elif f in ("from_iterable", "of") and case.get("iterable") in FAILING:
+        boundary.append("iterable-fails")
+        cls.append(f"iterable-fails:{case['iterable']}")
+        if case["fail_at"] == 0:
+            cls.append("iterable-fails:before-first-item")
     elif f in ("from_iterable", "of") and nvals == 0:
         boundary.append("empty-iterable")
     elif f == "repeat_value" and case["n"] == 0:
@@ -381,7 +437,15 @@ def _iter_case(draw):
     kind = "list" if f == "of" else draw(st.sampled_from(["list", "tuple", "deque", "iter", "gen", "dictvalues", "str"]))
     if kind == "str":
         items = draw(st.lists(st.sampled_from(["a", "b", "", "xy", "0"]), min_size=0, max_size=6))
-    return {"f": f, "iterable": kind, "items": items}
+    c = {"f": f, "iterable": kind, "items": items}
+    if f == "from_iterable":
+        c["alias"] = draw(st.sampled_from(["from_iterable", "from_iterable", "from_", "from_list"]))
+        if draw(st.integers(0, 3)) == 0:  # the iterable fails (raises from __next__) after fail_at items
+            if kind == "str":
+                c["items"] = items = draw(st.lists(_names, min_size=0, max_size=8))
+            c["iterable"] = draw(st.sampled_from(list(FAILING)))
+            c["fail_at"] = draw(st.one_of(st.integers(0, len(items)), st.just(len(items))))
+    return c
 
 
 @st.composite
